@@ -1255,11 +1255,21 @@ where
 	// Refuse if TTL is expired
 	// (the confirmed height is recorded per account, by that account's refreshes; how far
 	// the wallet has seen the chain does not depend on which account happens to be active:
-	// the block the last update scanned up to is recorded for the wallet as a whole)
-	let last_confirmed_height = std::cmp::max(
+	// the highest height any of its accounts has recorded counts, and so does the block the
+	// last update scanned up to, which is recorded for the wallet as a whole)
+	let mut last_confirmed_height = std::cmp::max(
 		w.last_confirmed_height()?,
 		w.last_scanned_block().map(|b| b.height).unwrap_or(0),
 	);
+	let active = w.parent_key_id();
+	let accounts: Vec<Identifier> = w.acct_path_iter().map(|m| m.path).collect();
+	for a in accounts {
+		w.set_parent_key_id(a);
+		if let Ok(h) = w.last_confirmed_height() {
+			last_confirmed_height = std::cmp::max(last_confirmed_height, h);
+		}
+	}
+	w.set_parent_key_id(active);
 	if slate.ttl_cutoff_height != 0 {
 		if last_confirmed_height >= slate.ttl_cutoff_height {
 			return Err(Error::TransactionExpired);
